@@ -243,26 +243,29 @@ SeqNosRet(ok) ==
      ELSE IF Ahead                                     \* checkpoint beyond the vBucket's high seqno: panic
      THEN /\ opc' = "none" /\ Die(<<SeqNosEv(TRUE)>>) /\ UNCHANGED <<cnt, obsvVars, offs, dirty, flag, obsNil, foleft, live>>
      ELSE /\ UNCHANGED <<up, mpc, cnt>>
-          /\ offs' = [v \in VB |-> IF InRange(v) THEN LoadedOff(v) ELSE NoOff]
-          /\ dirty' = IF LatestBranch THEN {v \in RangeSet : HighOf(v) # 0} ELSE {}
-          /\ flag' = (LatestBranch /\ \E v \in RangeSet : HighOf(v) # 0)
-          /\ IF LatestBranch
+          /\ IF LatestBranch          \* the maps are installed only when Load returns, after the failover-log queries
              THEN /\ opc' = "folog" /\ foleft' = Cardinality(RangeSet) /\ Emit(<<SeqNosEv(TRUE)>>)
-                  /\ UNCHANGED <<obsvVars, obsNil, live>>
-             ELSE /\ StartOpening(<<SeqNosEv(TRUE)>>) /\ UNCHANGED foleft
+                  /\ UNCHANGED <<obsvVars, obsNil, live, offs, dirty, flag>>
+             ELSE /\ offs' = [v \in VB |-> IF InRange(v) THEN LoadedOff(v) ELSE NoOff]
+                  /\ dirty' = {} /\ flag' = FALSE
+                  /\ StartOpening(<<SeqNosEv(TRUE)>>) /\ UNCHANGED foleft
 
 \* GetFailOverLogs of one more vb returns (latest branch only; sequential, l.141-168)
 FoLogRet(ok) ==
   /\ up /\ opc = "folog" /\ foleft > 0 /\ Prompt
   /\ (~ok => cnt.fail < MaxFail)
-  /\ UNCHANGED <<slog, wire, store, info, offs, dirty, flag, rng, open, active, balancing, cwc, finClose, finEnd,
+  /\ UNCHANGED <<slog, wire, store, info, rng, open, active, balancing, cwc, finClose, finEnd,
                  rebalances, stopped, ctxs, synVars, dcwc, opener, opened, clo, spc, sv, rpc, dpc, reop>>
   /\ IF ~ok THEN /\ opc' = "none" /\ cnt' = [cnt EXCEPT !.fail = @ + 1] /\ Die(<<[ev |-> "Fail", what |-> "FoLog"]>>)
-                 /\ UNCHANGED <<obsvVars, obsNil, foleft, live>>
+                 /\ UNCHANGED <<obsvVars, obsNil, foleft, live, offs, dirty, flag>>
      ELSE /\ UNCHANGED <<up, mpc, cnt>>
           /\ foleft' = foleft - 1
-          /\ IF foleft = 1 THEN StartOpening(<<>>)
-             ELSE /\ Emit(<<>>) /\ UNCHANGED <<opc, obsvVars, obsNil, live>>
+          /\ IF foleft = 1
+             THEN /\ offs' = [v \in VB |-> IF InRange(v) THEN LoadedOff(v) ELSE NoOff]
+                  /\ dirty' = {v \in RangeSet : HighOf(v) # 0}
+                  /\ flag' = (\E v \in RangeSet : HighOf(v) # 0)
+                  /\ StartOpening(<<>>)
+             ELSE /\ Emit(<<>>) /\ UNCHANGED <<opc, obsvVars, obsNil, live, offs, dirty, flag>>
 
 \* the last stream is open: rest of Open (l.265-271) and, for the timer goroutine, of rebalance (l.318-322)
 OpenRetEv(v, ok, rb, f) == [ev |-> "OpenRet", vb |-> v, ok |-> ok, uuid |-> IF ok THEN FoUuid[v] ELSE 0,
@@ -667,7 +670,7 @@ TimerFire(i) ==
   /\ IF timers[i].fn = "rebalance"
      THEN \* stream.rebalance: BeforeRebalanceEnd, Open() up to metadata.Load
           /\ (GapReopen \/ mpc = "running")
-          /\ (\A t \in SaveThreads : spc[t] = "idle")   \* not explored: a Save call that spans the re-open (it would use the
+          /\ (GapReopen \/ \A t \in SaveThreads : spc[t] = "idle")   \* not explored: a Save call that spans the re-open (it would use the
                                                        \* save lock of the previous checkpoint object)
           /\ timers' = [timers EXCEPT ![i].st = "fired"]
           /\ OpenBegin("timer")
@@ -752,6 +755,14 @@ Crash ==
   /\ UNCHANGED <<slog, wire, store, info, obsvVars, strVars, synVars, dcwc, opener, opc, opened, live, foleft, clo, spc, sv,
                  rpc, dpc, reop>>
 
+\* the bucket is flushed / recreated while the process is down: the history of v is gone, its checkpoint is not
+Flush(v) ==
+  /\ ~up /\ mpc = "off" /\ cnt.fail < MaxFail /\ slog[v] # <<>>
+  /\ slog' = [slog EXCEPT ![v] = <<>>]
+  /\ cnt' = [cnt EXCEPT !.fail = @ + 1]
+  /\ Emit(<<>>)
+  /\ UNCHANGED <<up, wire, store, info, obsvVars, strVars, synVars, thrVars>>
+
 -----------------------------------------------------------------------------
 Step(l) ==
   CASE l.a = "Boot"       -> Boot
@@ -776,6 +787,7 @@ Step(l) ==
     [] l.a = "ReopenRet"  -> ReopenRet(l.vb, l.ok)
     [] l.a = "WaitFin"    -> WaitFin(l.k)
     [] l.a = "Crash"      -> Crash
+    [] l.a = "Flush"      -> Flush(l.vb)
 
 MaxCtx == 6
 MaxTimers == 4
@@ -783,6 +795,7 @@ Life == MaxNotify > 0 \/ MaxEnds > 0 \/ AllowClose
 Labels ==
   [a : {"Boot"}]
   \cup (IF MaxCrash > 0 THEN [a : {"Crash"}] ELSE {})
+  \cup (IF MaxCrash > 0 /\ MaxFail > 0 THEN [a : {"Flush"}, vb : VB] ELSE {})
   \cup [a : {"LoadRet", "SeqNosRet"}, ok : IF MaxFail > 0 THEN BOOLEAN ELSE {TRUE}]
   \cup (IF AutoReset = "latest" THEN [a : {"FoLogRet"}, ok : IF MaxFail > 0 THEN BOOLEAN ELSE {TRUE}] ELSE {})
   \cup [a : {"OpenRet"}, vb : VB, res : {"ok"}, r : {0}]
@@ -810,7 +823,7 @@ LibRb == Cardinality({u \in {"bus", "tmr"} : rpc[u] = "want"})
 Parked ==
   (IF opc = "load" THEN {OpenerAt("md.Load")} ELSE {})
   \cup (IF opc = "seqnos" THEN {OpenerAt("GetVBucketSeqNos")} ELSE {})
-  \cup (IF opc = "folog" THEN {OpenerAt("GetFailOverLogs")} ELSE {})
+  \cup (IF opc = "folog" THEN {"lib:GetFailOverLogs"} ELSE {})     \* the map's Range runs its callback on its own goroutine
   \cup (IF opc = "opening" THEN {"lib:OpenStream:" \o ToString(v) : v \in RangeSet \ opened} ELSE {})
   \cup {"lib:OpenStream:" \o ToString(v) : v \in reop}
   \cup {t \o "@save.prelock" : t \in {u \in SaveThreads : spc[u] = "want"}}
